@@ -73,14 +73,8 @@ Fixpoint take_digits (l : list N) (acc cnt : Z) : Z * Z * list N :=
 (* The grammar strconv.ParseFloat accepts over the alphabet {0-9 . e -}:
      [-] (digits ['.' digits] | '.' digits) [e [-] digits]
    with at least one mantissa digit and at least one exponent digit. *)
-(* mantissa, number of fraction digits, exponent — after the sign *)
-Definition S_real_body (l0 : list N) : option (Z * Z * Z) :=
-  let '(m1, n1, l1) := take_digits l0 0 0 in
-  let '(m2, n2, l2) := match l1 with
-                       | c :: r => if (c =? ch_dot)%N then take_digits r m1 0 else (m1, 0, l1)
-                       | [] => (m1, 0, [])
-                       end in
-  if (n1 + n2 =? 0) then None else
+(* the optional exponent part: e [-] digits, up to the end of the text *)
+Definition S_real_exp (l2 : list N) (m2 n2 : Z) : option (Z * Z * Z) :=
   match l2 with
   | [] => Some (m2, n2, 0)
   | c :: r =>
@@ -97,6 +91,15 @@ Definition S_real_body (l0 : list N) : option (Z * Z * Z) :=
       end
     else None
   end.
+
+(* mantissa, number of fraction digits, exponent — after the sign *)
+Definition S_real_body (l0 : list N) : option (Z * Z * Z) :=
+  let '(m1, n1, l1) := take_digits l0 0 0 in
+  let '(m2, n2, l2) := match l1 with
+                       | c :: r => if (c =? ch_dot)%N then take_digits r m1 0 else (m1, 0, l1)
+                       | [] => (m1, 0, [])
+                       end in
+  if (n1 + n2 =? 0) then None else S_real_exp l2 m2 n2.
 
 Definition S_real_parse (cs : list N) : option decimal :=
   let '(neg, l0) := match cs with
